@@ -584,8 +584,75 @@ theorem lookup_mem {defs : Defs} {n : Name} {t : ItemDef} (h : lookup defs n = s
     obtain ⟨m, t'⟩ := e
     simp only [lookup] at h
     split at h
-    · rename_i hm; cases h; subst hm; simp
-    · exact List.mem_cons_of_mem _ (ih h)
+    · rename_i t'' heq
+      cases h
+      exact List.mem_cons_of_mem _ (ih heq)
+    · split at h
+      · rename_i hm; cases h; subst hm; simp
+      · cases h
+
+/-- no definition of the name: nothing is found -/
+theorem lookup_eq_none_iff {defs : Defs} {n : Name} : lookup defs n = none ↔ n ∉ defs.map Prod.fst := by
+  induction defs with
+  | nil => simp [lookup]
+  | cons e es ih =>
+    obtain ⟨m, t⟩ := e
+    simp only [lookup, List.map_cons, List.mem_cons, not_or]
+    cases h : lookup es n with
+    | some t' =>
+      constructor
+      · intro hc; simp at hc
+      · intro ⟨_, hn⟩; rw [ih.mpr hn] at h; cases h
+    | none =>
+      have hn := ih.mp h
+      constructor
+      · intro hc
+        refine ⟨?_, hn⟩
+        intro hnm; subst hnm; simp at hc
+      · intro ⟨hnm, _⟩
+        have : ¬ m = n := fun e => hnm e.symm
+        simp [this]
+
+/-- with one definition per name, a definition is found under its name -/
+theorem lookup_of_mem {defs : Defs} {n : Name} {t : ItemDef} (hnd : (defs.map Prod.fst).Nodup)
+    (h : (n, t) ∈ defs) : lookup defs n = some t := by
+  induction defs with
+  | nil => cases h
+  | cons e es ih =>
+    obtain ⟨m, t'⟩ := e
+    simp only [List.map_cons, List.nodup_cons] at hnd
+    simp only [lookup]
+    rcases List.mem_cons.mp h with heq | hmem
+    · cases heq
+      have : lookup es n = none := lookup_eq_none_iff.mpr hnd.1
+      simp [this]
+    · rw [ih hnd.2 hmem]
+
+/-- The registry the loop of inserts builds answers as the last-wins search does. -/
+theorem registry_foldl (defs : Defs) (r : Registry) (n : Name) :
+    (defs.foldl (fun r e => r.insert e.1 e.2) r) n = (match lookup defs n with | some t => some t | none => r n) := by
+  induction defs generalizing r with
+  | nil => simp [lookup]
+  | cons e es ih =>
+    obtain ⟨m, t⟩ := e
+    simp only [List.foldl_cons, ih, lookup]
+    cases lookup es n with
+    | some t' => rfl
+    | none =>
+      simp only [Registry.insert]
+      by_cases hm : m = n
+      · simp [hm]
+      · simp [hm, Ne.symm hm]
+
+/-- Two arrangements of one set of definitions (one definition per name) resolve every name alike. -/
+theorem lookup_perm {defs defs' : Defs} (hp : defs.Perm defs') (hnd : (defs.map Prod.fst).Nodup) (n : Name) :
+    lookup defs' n = lookup defs n := by
+  have hnd' : (defs'.map Prod.fst).Nodup := (hp.map Prod.fst).nodup_iff.mp hnd
+  cases h : lookup defs n with
+  | none =>
+    have := lookup_eq_none_iff.mp h
+    exact lookup_eq_none_iff.mpr (fun hn => this ((hp.map Prod.fst).mem_iff.mpr hn))
+  | some t => exact lookup_of_mem hnd' (hp.mem_iff.mp (lookup_mem h))
 
 theorem idem_fuel (defs : Defs) (wf : WFDefs defs) : ∀ fuel, Idem (evaluator defs fuel) := by
   intro fuel
